@@ -309,6 +309,14 @@ def k01_detail(kind, d):
 # --------------------------------------------------------------------------- running a program
 
 
+# element types of the arrays handed to bulkload(): numpy dtype (and the legal range of an integer kind).  Whatever the
+# array holds, update() stores numpy.float64(value): the case values of an integer kind are integers float64 represents
+# exactly (so the inserted value IS the stored one and every clause stays exact), those of "f4" are float32 values.
+INT_KINDS = {"i8": ("int64", -2 ** 63, 2 ** 63 - 1), "i4": ("int32", -2 ** 31, 2 ** 31 - 1), "i2": ("int16", -2 ** 15, 2 ** 15 - 1),
+             "u1": ("uint8", 0, 255), "u2": ("uint16", 0, 2 ** 16 - 1), "u4": ("uint32", 0, 2 ** 32 - 1)}
+FLOAT_KINDS = {"f8": "float64", "f4": "float32", "f2": "float16"}
+
+
 def bulk_parts(mode, values, kind, cap, factor):
     """What numpy hands to update() — numpy is a parameter of the model.
     Returns (array given to bulkload, model op tail, [(value, count)] inserted, lo, hi)."""
@@ -316,16 +324,19 @@ def bulk_parts(mode, values, kind, cap, factor):
 
     if mode == "q":
         arr = numpy.array([vin("q", v) for v in values], dtype=object)
-    elif kind == "i8":
-        arr = numpy.array([int(v) for v in values], dtype="int64")
+    elif kind in INT_KINDS:
+        arr = numpy.array([int(v) for v in values], dtype=INT_KINDS[kind][0])
     else:
-        arr = numpy.array([float(v) for v in values], dtype="float64")
+        arr = numpy.array([float(v) for v in values], dtype=FLOAT_KINDS[kind])
     uniq, cnts = numpy.unique(arr, return_counts=True)
     lo, hi = arr.min(), arr.max()
     if len(uniq) > cap * factor:
         if mode == "q":
             raise InfraError("exact-mode bulk load above the threshold is not generated")
-        cnts, edges = numpy.histogram(arr, cap * factor, density=False)
+        # a float16 / float32 array is binned as the float64 array of the same values (C13-F07: its edges would otherwise
+        # be float16 / float32 numbers and their midpoints computed in that type)
+        src = arr.astype("float64") if (arr.dtype.kind == "f" and arr.dtype.itemsize < 8) else arr
+        cnts, edges = numpy.histogram(src, cap * factor, density=False)
         mids = [(edges[i] + edges[i + 1]) / 2 for i in range(len(edges) - 1)]
         ins = [(m, int(c)) for m, c in zip(mids, cnts) if c > 0]
         tail = ["bulkh", [vwire(mode, e) for e in edges], [vwire(mode, int(c)) for c in cnts], vwire(mode, lo), vwire(mode, hi)]
@@ -532,7 +543,7 @@ def run_impl(case, keep=False):
                                     "upd:full(in-place or insert + 1 merge)" if post_len == pre_len else
                                     "upd:insert + %s merges" % ("2" if pre_len + 1 - post_len == 2 else ">2"))
                     L[r].put(v, c)
-                    R[r].update(v, c)
+                    R[r].update(v if mode == "q" else float(v), c)  # a Python int is stored as numpy.float64(value), not as an int
                     touched = r
                 elif k == "updl":
                     # the left operand of the last `+` on r lives on as an object of its own: update it
@@ -580,7 +591,20 @@ def run_impl(case, keep=False):
                         arr, tail, ins, lo, hi, path = bulk_parts(mode, values, kind, int(H[r]._bin_count), factor)
                         out.model_ops.append([tail[0], r] + tail[1:])
                         ctx_hits.append("bulk:" + path)
+                        if mode == "f":
+                            ctx_hits.append("bulk:dtype=%s%s%s" % (arr.dtype, " into-empty" if not H[r].bins else " into-used",
+                                                                   " distinct<=limit" if len(ins) <= int(H[r]._bin_count) else ""))
+                            big = max(abs(float(lo)), abs(float(hi)))
+                            if arr.dtype.kind in "iu" and big * max(c for _, c in ins) >= 2.0 ** 63:
+                                ctx_hits.append("bulk:integer array with |value| * count >= 2**63")
+                            if arr.dtype == "float32" and big * max(c for _, c in ins) > 3.4e38:
+                                ctx_hits.append("bulk:float32 array with |value| * count beyond the float32 range")
                         H[r].bulkload(arr)
+                        if mode == "f":
+                            # observation only (the statement speaks of the bins' values, not of their Python class): what the
+                            # histogram holds after the load — numpy.float64 on the code as it is (float128 after a dump())
+                            for tn in sorted(set(type(v).__name__ for v, _ in H[r].bins)):
+                                ctx_hits.append("bulk:stored centre class after the load = " + tn)
                         for v, c in ins:
                             L[r].put(v, c)
                             R[r].update(v if mode == "q" else float(v), c)
@@ -862,9 +886,16 @@ def valid_case(c):
             if len(op) != 3 or op[1] not in regs or op[2] not in regs or op[1] == op[2]:
                 return False
         elif k == "bulk":
-            if len(op) != 4 or op[1] not in regs or not isinstance(op[2], list) or op[3] not in ("f8", "i8"):
+            if len(op) != 4 or op[1] not in regs or not isinstance(op[2], list) or not (op[3] in INT_KINDS or op[3] in FLOAT_KINDS):
                 return False
             if not all(_valid_val(c["mode"], v) for v in op[2]):
+                return False
+            if c["mode"] == "f" and op[3] in INT_KINDS:
+                # within the element type's range and exactly a float64 (the value update() stores is the value inserted)
+                _, lo_k, hi_k = INT_KINDS[op[3]]
+                if not all(v == int(v) and lo_k <= int(v) <= hi_k and float(int(v)) == int(v) for v in op[2]):
+                    return False
+            if c["mode"] == "f" and op[3] in ("f4", "f2") and not all(abs(float(v)) < (3.4e38 if op[3] == "f4" else 65520.0) for v in op[2]):
                 return False
             if c["mode"] == "q" and len(set(map(repr, op[2]))) > 2 * 5:
                 return False
@@ -886,7 +917,10 @@ def _valid_val(mode, v):
         if isinstance(v, int) and not isinstance(v, bool):
             return True
         return isinstance(v, list) and len(v) == 2 and all(isinstance(x, int) and not isinstance(x, bool) for x in v) and v[1] > 0
-    return isinstance(v, (int, float)) and not isinstance(v, bool) and math.isfinite(v)
+    if isinstance(v, int) and not isinstance(v, bool):
+        # update(h, 10**18): legal; the inserted value is the float64 that is stored only if float64 represents the integer
+        return abs(v) < 2 ** 1000 and float(v) == v
+    return isinstance(v, float) and math.isfinite(v)
 
 
 def _kind(clause):
@@ -1435,6 +1469,156 @@ def zero_extreme_case(ctx, mode=None):
     return {"mode": mode, "prog": prog, "family": "zero-extreme:" + ("min" if sgn > 0 else "max"), "snap_every": 1}
 
 
+def typed_lattice(rng, kind):
+    """(base, step, span): values base + k*step, 0 <= k < span, of the element type `kind`, at a magnitude where that
+    type's own arithmetic stops agreeing with float64's (v*count beyond 2**63 for int64, beyond the range / the 24-bit
+    significand of float32, the ends of the small integer types) — and sometimes at an ordinary magnitude.  Every value
+    is exactly a float64, so on the code as it is (update() stores numpy.float64(value)) nothing is rounded on the way
+    in."""
+    if kind == "i8":
+        how = rng.choice(["ns", "ns", "2**62", "-2**62", "1e18", "wide", "wide", "small"])
+        if how == "wide":  # spread over the whole int64 range: a merged centre that is off moves the mean as well
+            return -9 * 10 ** 18, 10 ** 17, 181
+        if how == "ns":  # nanosecond timestamps at whole seconds / minutes / hours (multiples of 10**9 = 2**9 * 5**9)
+            return rng.randint(1_200_000_000, 1_900_000_000) * 10 ** 9, 10 ** 9 * rng.choice([1, 1, 60, 3600]), 400
+        if how == "2**62":
+            return 2 ** 62 - 2 ** 20, 2 ** 10 * rng.choice([1, 3, 16]), 2000
+        if how == "-2**62":
+            return -(2 ** 62) - 2 ** 21, 2 ** 11 * rng.choice([1, 5]), 2000
+        if how == "1e18":
+            return rng.choice([1, -1, 3]) * 10 ** 18, 2 ** 12 * rng.choice([1, 7, 1000]), 1000
+        return rng.randint(-1000, 1000), rng.choice([1, 7]), 400
+    if kind == "i4":
+        return rng.choice([2 ** 31 - 1 - 3000, -(2 ** 31), rng.randint(-10 ** 6, 10 ** 6)]), rng.choice([1, 2, 7]), 400
+    if kind == "i2":
+        return rng.choice([2 ** 15 - 1 - 400, -(2 ** 15), 0]), 1, 400
+    if kind == "u1":
+        return rng.choice([0, 56]), 1, 200
+    if kind == "u2":
+        return rng.choice([2 ** 16 - 1 - 400, 0]), 1, 400
+    if kind == "u4":
+        return rng.choice([2 ** 32 - 1 - 2800, 0, 2 ** 31 - 200]), rng.choice([1, 7]), 400
+    return None
+
+
+def typed_values(rng, kind, n):
+    """n distinct values of the element type `kind` (ascending), see `typed_lattice`."""
+    import numpy
+
+    if kind in INT_KINDS:
+        base, step, span = typed_lattice(rng, kind)
+        vals = [base + k * step for k in sorted(rng.sample(range(span), n))]
+        _, lo, hi = INT_KINDS[kind]
+        if not all(lo <= v <= hi and float(v) == v for v in vals):
+            raise InfraError("typed_values produced a value outside %s / not a float64: %r" % (kind, vals[:5]))
+        return vals
+    if kind == "f4":
+        how = rng.choice(["3e38", "3e38", "-3e38", "2**24", "1e30", "ordinary"])
+        if how in ("3e38", "-3e38"):  # next to the largest float32: v * count leaves float32 for count >= 2
+            sg = 1.0 if how == "3e38" else -1.0
+            vals = [sg * 3e38 * (1.0 - k / 4096.0) for k in rng.sample(range(400), n)]
+        elif how == "2**24":  # where float32 stops representing every integer
+            vals = [float(2 ** 24 - 300 + 2 * k) for k in rng.sample(range(400), n)]
+        elif how == "1e30":
+            vals = [1e30 * (1.0 + k / 512.0) for k in rng.sample(range(400), n)]
+        else:
+            vals = [rng.uniform(-100, 100) for _ in range(n)]
+        return sorted(set(float(numpy.float32(v)) for v in vals))
+    if kind == "f2":
+        how = rng.choice(["65504", "65504", "2**11", "ordinary"])
+        if how == "65504":  # next to the largest float16: the sum of two edges leaves float16
+            vals = [65504.0 - 32.0 * k for k in rng.sample(range(400), n)]
+        elif how == "2**11":  # where float16 stops representing every integer
+            vals = [float(2 ** 11 - 300 + k) for k in rng.sample(range(400), n)]
+        else:
+            vals = [rng.randint(-800, 800) / 8.0 for _ in range(n)]
+        return sorted(set(float(numpy.float16(v)) for v in vals))
+    # float64 arrays at the magnitudes the integer kinds are tried at
+    how = rng.choice(["1e18", "2**62", "ordinary"])
+    if how == "1e18":
+        return sorted(1e18 + 4096.0 * k for k in rng.sample(range(1000), n))
+    if how == "2**62":
+        return sorted(float(2 ** 62 + 2 ** 12 * k) for k in rng.sample(range(1000), n))
+    return sorted(set(rng.uniform(-100, 100) for _ in range(n)))
+
+
+def typed_bulk_case(ctx):
+    """Bulk loads of arrays whose ELEMENT TYPE is not float64 — int64 / int32 / int16 / uint8 / uint16 / uint32 /
+    float32 — holding few distinct values, each repeated (counts 2..20), at magnitudes where that type's arithmetic
+    differs from float64's (int64 centre * count beyond 2**63: nanosecond timestamps, ids next to 2**62; float32 next to
+    its largest value and around 2**24; the ends of the small integer types), into an empty histogram (mostly) or a used
+    one, with at most `limit` distinct values (mostly), up to / one past `limit * 5`; then updates (Python ints or
+    floats of the same lattice, exact hits and new values) that force the closest pairs of the loaded bins to merge,
+    a second load, `+` of a second typed load, dump/load.  The streaming path stores numpy.float64(value) for whatever
+    it is handed; a path that keeps the array's own scalars computes later centroids in that type."""
+    rng = ctx.rng
+    kind = rng.choice(["i8", "i8", "i8", "i8", "i4", "i2", "u1", "u2", "u4", "f4", "f4", "f2", "f8"])
+    cap = rng.choice([2, 2, 3, 3, 4, 5, 8, rng.randint(2, 24)])
+    r = rng.random()
+    n = rng.randint(1, cap) if r < 0.7 else cap if r < 0.8 else rng.randint(cap + 1, cap * 5) if r < 0.95 else cap * 5 + 1
+    n = min(n, 150)
+    extra = rng.randint(1, cap + 4)
+    pool = typed_values(rng, kind, n + extra)
+    order = list(range(len(pool)))
+    rng.shuffle(order)
+    first = [pool[i] for i in sorted(order[:n])]
+    later = [pool[i] for i in order[n:]]
+    if not first:
+        first, later = pool[:1], pool[1:]
+
+    def rep():
+        return rng.choice([1, 2, 2, 5, 8, 10, 20])
+
+    def arr_of(vals):
+        a = [v for v in vals for _ in range(rep())]
+        rng.shuffle(a)
+        return a
+
+    def scalar(v):
+        # update(h, value): a float, or (integer kinds) the Python int
+        return v if (kind in INT_KINDS and rng.random() < 0.5) else float(v)
+
+    prog = [["new", 0, cap]]
+    if rng.random() < 0.15 and later:
+        prog.append(["upd", 0, scalar(later.pop()), gen_count(rng)])  # the load goes into a histogram already in use
+    prog.append(["bulk", 0, arr_of(first), kind])
+    nxt = 1
+    for v in later:
+        q = rng.random()
+        if q < 0.72:
+            prog.append(["upd", 0, scalar(v), gen_count(rng)])
+        elif q < 0.8:
+            prog.append(["upd", 0, scalar(rng.choice(first)), gen_count(rng)])  # exact hit on a loaded centre (if still there)
+        elif q < 0.9:
+            prog.append(["bulk", 0, arr_of([v] + rng.sample(first, min(len(first), rng.randint(0, 2)))), kind])
+        elif q < 0.96:
+            prog.append(["new", nxt, rng.choice([2, 3, cap, 64])])
+            prog.append(["bulk", nxt, arr_of([v] + rng.sample(first, min(len(first), rng.randint(0, 3)))), kind])
+            prog.append(["add", 0, nxt] if rng.random() < 0.7 else ["add", nxt, 0])
+            nxt += 1
+        else:
+            prog.append(["dl", 0, nxt])
+            nxt += 1
+    return {"mode": "f", "prog": prog, "family": "typed-bulk:" + kind, "snap_every": 1 if len(prog) <= 30 else 5}
+
+
+def py_int_stream_case(ctx):
+    """`update(h, value, count)` with Python ints of large magnitude (the int64 lattices of `typed_lattice`, each exactly
+    a float64) and counts above 1, small limits: the stored centre is numpy.float64(value), so two inserted integers
+    merge in float64 arithmetic (two roundings: the sum of products, then the quotient) — kept as Python ints they would
+    merge exactly and be rounded once, which differs in the last bit at these magnitudes."""
+    rng = ctx.rng
+    cap = rng.choice([2, 2, 3, 3, 4, 5])
+    vals = typed_values(rng, "i8", cap + rng.randint(1, 8))
+    rng.shuffle(vals)
+    prog = [["new", 0, cap]]
+    for v in vals:
+        prog.append(["upd", 0, v if rng.random() < 0.85 else float(v), rng.choice([1, 2, 3, 5, 7, 10, 100, 999])])
+        if rng.random() < 0.1:
+            prog.append(["upd", 0, rng.choice(vals), rng.choice([1, 3])])
+    return {"mode": "f", "prog": prog, "family": "py-int-stream", "snap_every": 1}
+
+
 def small_exhaustive(ctx):
     """All update histories of length <= L over a tiny value alphabet, caps 2..3, exact mode."""
     import itertools
@@ -1524,6 +1708,32 @@ BOUNDARY = [
 ] + [
     # in-place shortcut next to bin 0 and next to the last bin
     {"mode": "q", "family": "boundary", "prog": [["new", 0, 3], ["upd", 0, 0, 1], ["upd", 0, 10, 1], ["upd", 0, 20, 1], ["upd", 0, 1, 1], ["upd", 0, 19, 1], ["upd", 0, 11, 1]]},
+] + [
+    # integer values spread over the int64 range, the closest pair (2e18 x5, 3e18 x1) merged by a later, negative value
+    {"mode": "f", "family": "boundary", "prog": [["new", 0, 4], ["bulk", 0, [2 * 10 ** 18] * 5 + [3 * 10 ** 18, 6 * 10 ** 18, 9 * 10 ** 18], "i8"],
+                                                ["upd", 0, -5 * 10 ** 18, 1], ["upd", 0, 8 * 10 ** 18, 3]]},
+] + [
+    # bulk loads of arrays whose element type is not float64, few distinct values each repeated, at magnitudes where that
+    # type's arithmetic differs from float64's; then updates that merge the two closest loaded bins (the stored centres
+    # are numpy.float64 whatever the array held: centre * count is a float64 product, not an int64 / float32 one)
+    {"mode": "f", "family": "boundary", "prog": [["new", 0, cap], ["bulk", 0, [v for v in vals[:cap] for _ in range(reps)], kind]]
+     + [["upd", 0, v, 1] for v in vals[cap:]]}
+    for cap, reps, kind, vals in (
+        (4, 10, "i8", [1_600_000_000 * 10 ** 9 + k * 10 ** 9 for k in (0, 1, 5, 12, 30, 31)]),  # nanosecond timestamps
+        (2, 2, "i8", [2 ** 62 + 2 ** 10 * k for k in (0, 2, 14, 17)]),  # centre * 2 == 2**63
+        (3, 5, "i8", [-(2 ** 62) + 2 ** 11 * k for k in (0, 1, 9, 30, 32)]),
+        (3, 4, "i4", [2 ** 31 - 1 - k for k in (40, 39, 20, 0, 1)]),
+        (3, 20, "u1", [255 - k for k in (9, 8, 4, 0, 1)]),
+        (3, 3, "f4", [3e38 * (1.0 - k / 4096.0) for k in (40, 39, 20, 0, 1)]),
+        (3, 3, "f4", [float(2 ** 24 - 2 * k) for k in (9, 8, 4, 0, 1)]),
+        (3, 6, "f8", [1e18 + 4096.0 * k for k in (0, 1, 9, 30, 32)]),
+        (3, 2, "f2", [65504.0 - 32.0 * k for k in (40, 39, 20, 0, 1)]),
+    )
+] + [
+    # one past `limit * 5` distinct float32 / float16 values next to the top of their range (C13-F07): binned and averaged
+    # as float64 values
+    {"mode": "f", "family": "boundary", "prog": [["new", 0, 2], ["bulk", 0, vals + vals, kind], ["upd", 0, vals[3], 2]]}
+    for kind, vals in (("f4", [3e38 * (1.0 - k / 4096.0) for k in range(11)]), ("f2", [65504.0 - 32.0 * k for k in range(11)]))
 ]
 
 
@@ -1582,7 +1792,8 @@ def run(ctx):
     while done < n_random and ctx.time_left() > ctx.scale(12, 170):
         cases = ([random_case(ctx) for _ in range(74)] + [dl_heavy_case(ctx) for _ in range(8)] + [zero_extreme_case(ctx) for _ in range(8)]
                  + [over_limit_load_case(ctx) for _ in range(4)] + [reuse_case(ctx) for _ in range(6)]
-                 + [checkpoint_case(ctx) for _ in range(8)] + [tiny_load_case(ctx) for _ in range(5)])
+                 + [checkpoint_case(ctx) for _ in range(8)] + [tiny_load_case(ctx) for _ in range(5)]
+                 + [typed_bulk_case(ctx) for _ in range(10)] + [py_int_stream_case(ctx) for _ in range(4)])
         evaluate(ctx, cases)
         done += len(cases)
         if ctx.violations:
@@ -1609,8 +1820,9 @@ def intensify(ctx):
     while ctx.time_left() > max(5, t_end - 50) and n < 3000 and not ctx.violations:
         evaluate(ctx, [random_case(ctx) for _ in range(74)] + [dl_heavy_case(ctx) for _ in range(10)] + [zero_extreme_case(ctx) for _ in range(10)]
                  + [over_limit_load_case(ctx) for _ in range(6)] + [reuse_case(ctx) for _ in range(6)]
-                 + [checkpoint_case(ctx) for _ in range(8)] + [tiny_load_case(ctx) for _ in range(6)])
-        n += 120
+                 + [checkpoint_case(ctx) for _ in range(8)] + [tiny_load_case(ctx) for _ in range(6)]
+                 + [typed_bulk_case(ctx) for _ in range(14)] + [py_int_stream_case(ctx) for _ in range(6)])
+        n += 140
 
 
 def replay(ctx, case):
